@@ -479,7 +479,9 @@ def f7(ctx):
                 ctx.violate(key, p, 'stream marks itself terminated while pending')
         elif outcome == 'Ready':
             inner = [e for e in evs if e.name == 'BR' and e.data['label'] == 'discr-of-payload']
-            oc = inner[-1].data['outcome'] if inner else None
+            # (a nested pattern `Ready(Err(Closed | SendClosed))` branches once more, on the kind of error: the Ok/Err test is the one meant)
+            okerr = [e for e in inner if e.data['outcome'] in ('Ok', 'Err')]
+            oc = okerr[-1].data['outcome'] if okerr else (inner[-1].data['outcome'] if inner else None)
             if oc == 'Ok':
                 v = shape[1][1] if shape[0] == 'Ready' and shape[1] and shape[1][0] == 'Some' else None
                 want = ('field', ('downcast', ('field', ('downcast', polls[0].val, 'Ready'), '0'), 'Ok'), '0')
